@@ -25,6 +25,9 @@ def _query(c):
     try:
         if how == "geom":
             out = list(gbt.tiles(G.polygon(wpts + [wpts[0]], CRS_A)))
+        elif how == "line":
+            ev["q"] = q[:2]
+            out = list(gbt.tiles(G.line(wpts[:2], CRS_A)))
         elif how == "geom_other_crs":
             pts = [(x + 1024, y + 2048) for x, y in wpts]
             out = list(gbt.tiles(G.polygon(pts + [pts[0]], CRS_B)))
